@@ -134,9 +134,11 @@ impl FromStr for CDDAOffset {
         let ss: u64 = ss.parse().ok().filter(|ss| *ss < 60).ok_or(())?;
         let mm: u64 = mm.parse().map_err(|_| ())?;
 
-        Ok(Self {
-            offset: (ff + ss * 75 + mm * 75 * 60) * 588,
-        })
+        mm.checked_mul(75 * 60)
+            .and_then(|frames| frames.checked_add(ff + ss * 75))
+            .and_then(|frames| frames.checked_mul(Self::SAMPLES_PER_SECTOR))
+            .map(|offset| Self { offset })
+            .ok_or(())
     }
 }
 
